@@ -3,6 +3,37 @@
 #define VERIF_LINALG1_H
 typedef uint8_t V1;
 typedef uint8_t DataType;
+/* the three products of the vector API:
+ *   APP(M, x)  an operator (matrix, filter, smoother, transfer) applied to a vector
+ *   SMUL(a, v) a scalar times a vector
+ *   DOT(a, b)  the dot product
+ * ring mode (default): all three are the product of Z/2^8.
+ * LA1_UF mode: all three are ARBITRARY binary functions (CBMC uninterpreted function symbols), except that SMUL agrees with the
+ * ring for the scalars 1 and -1 (the only scalar identities the code relies on). A proof in this mode holds for every
+ * interpretation of the products - in particular the real matrices and the floating point dot products - and decides
+ * which operator is applied to which operand, in which order. */
+#ifdef LA1_UF
+#ifndef LA1_UF_FUNCS   /* default: nondeterministic constant tables of unbounded size (loop invariants may not contain function calls) */
+extern const V1 APPTAB[__CPROVER_constant_infinity_uint], SMULTAB[__CPROVER_constant_infinity_uint], DOTTAB[__CPROVER_constant_infinity_uint];
+#define UF2(T, a, b) (T[((unsigned)(V1)(a) << 8) | (V1)(b)])
+#define APP(M, x)  UF2(APPTAB, M, x)
+#define SMUL(a, v) ((V1)(a) == 1 ? (V1)(v) : (V1)(a) == (V1)255 ? (V1)(-(v)) : UF2(SMULTAB, a, v))
+#define DOT(a, b)  UF2(DOTTAB, a, b)
+#else
+V1 __CPROVER_uninterpreted_app(V1, V1);
+V1 __CPROVER_uninterpreted_smul(V1, V1);
+V1 __CPROVER_uninterpreted_dot(V1, V1);
+#define APP(M, x)  (__CPROVER_uninterpreted_app((V1)(M), (V1)(x)))
+#define SMUL(a, v) ((V1)(a) == 1 ? (V1)(v) : (V1)(a) == (V1)255 ? (V1)(-(v)) : __CPROVER_uninterpreted_smul((V1)(a), (V1)(v)))
+#define DOT(a, b)  (__CPROVER_uninterpreted_dot((V1)(a), (V1)(b)))
+#endif
+#define LA1_HAVOC() ((void)0)
+#else
+#define APP(M, x)  ((V1)((M) * (x)))
+#define SMUL(a, v) ((V1)((a) * (v)))
+#define DOT(a, b)  ((V1)((a) * (b)))
+#define LA1_HAVOC() ((void)0)
+#endif
 typedef enum { Status_undefined = 0, Status_progress, Status_success, Status_aborted, Status_diverged, Status_max_iter, Status_stagnated } Status;
 typedef struct {
   V1 vec_sol, vec_rhs, vec_def, vec_cor, vec_tmp;   /* LevelInfo vectors */
@@ -10,12 +41,23 @@ typedef struct {
   V1 Fd, Fc;                                        /* system filter acting on defects / corrections */
   V1 S_pre, S_post, S_peak;                         /* smoothers (linear) */
   bool has_pre, has_post, has_peak;                 /* which smoothers the level has */
+  V1 R, P;                                          /* transfer operator of this level: restriction to / prolongation from the next coarser level */
+  bool ghost;                                       /* transfer operator is a ghost (coarser level lives on another process) */
 } LVL1;
 typedef LVL1 SELF_T;
 #define lvl (*lvlp)
+#define lvl_f (*lvl_fp)
+#define lvl_c (*lvl_cp)
+#define MAXLV 8
+LVL1 LV[MAXLV + 1];          /* the level hierarchy: index 0 = finest */
+Index top_level, crs_level, hier_size;
+int n_rest_send, n_prol_recv;
+Index gl;                            /* ghost (Skolem) level the contracts speak about */
+V1 prol_recvd;                       /* ghost record of prol_recv on level gl: the correction received */
+Index rest_send_lvl; V1 rest_sent;   /* ghost record of rest_send: the level whose transfer sent, and the vector sent */
 /* documented semantics of one smoothing step with defect recomputation (written from the property statement) */
-#define SM_SOL(s0, d0, S)  ((V1)((s0) + (V1)(self->Fc * (V1)((S) * (d0)))))
-#define DEFECT(s)          ((V1)(self->Fd * (V1)(self->vec_rhs - (V1)(self->A * (s)))))
+#define SM_SOL(s0, d0, S)  ((V1)((s0) + APP(self->Fc, APP((S), (d0)))))
+#define DEFECT(s)          (APP(self->Fd, (V1)(self->vec_rhs - APP(self->A, (s)))))
 #ifdef LA1_DECL_SMOOTH_DEF
 /* callee contract of _apply_smooth_def (proved by contracts/C09/smooth_def.spec), used by --replace-call-with-contract */
 V1 la1_s0, la1_d0;
